@@ -1,5 +1,6 @@
 import Tau.Rule
 import Tau.Properties.C16
+import Tau.Proofs.Signed
 /-
   C11 — Verdict is independent of how the document is represented (partial: the adapters are Rust
   glue; their tie to the model is the correspondence run over four representations).
@@ -95,5 +96,53 @@ theorem representation_independent_optimised (E : RegexEngine) (sw : Switches) (
     (h : ∀ k, d.find k = d'.find k) : (r.optimise E sw).matches E d = (r.optimise E sw).matches E d' := by
   unfold Rule.matches Rule.solve
   rw [representation_independent E _ d d' _ h]
+
+end Tau.C11
+
+namespace Tau.C11
+open Tau
+
+/-! ### Signedness of integers: which Rust type held the number does not matter
+
+The adapters hand a non-negative integer over as `Value::UInt` when it came from YAML, JSON or an
+unsigned Rust type, and as `Value::Int` when it came from `i8 … i64` / `isize` (value.rs:286-329).
+`normDoc` rewrites every `UInt n` with `n ≤ i64::MAX` into `Int n` at every depth of whatever the
+document answers. No rule can tell a document from its normal form (Tau/Proofs/Signed.lean,
+`norm_invariant`: an induction over every solver arm — searches through casts, the comparison
+table and the three casts, `str(a) == str(b)`, nested blocks over objects and arrays, all()/of(),
+the matrix cache, pass-through documents). -/
+
+/-- **A document and its signedness-normal form get the same three-valued result from every rule.** -/
+theorem signedness_independent (E : RegexEngine) (ids : Ids) (d : Doc) (e : Expr) :
+    solveTop E ids (normDoc d) e = solveTop E ids d e :=
+  top_norm E ids d e
+
+/-- **Two documents of any representation that answer every key alike up to the signedness of the
+    integers they hold get the same verdict from every rule** — a `HashMap<String, i64>` against the
+    YAML mapping of the same numbers, a hand-written object holding `isize` against JSON. -/
+theorem same_numbers_same_verdict (E : RegexEngine) (ids : Ids) (d d' : Doc) (e : Expr)
+    (h : ∀ k, (normDoc d).find k = (normDoc d').find k) :
+    matchesTop E ids d e = matchesTop E ids d' e := by
+  unfold matchesTop
+  rw [← signedness_independent E ids d e, ← signedness_independent E ids d' e]
+  rw [representation_independent E ids (normDoc d) (normDoc d') e h]
+
+/-- The same for an optimised rule, any switches. -/
+theorem same_numbers_same_verdict_optimised (E : RegexEngine) (sw : Switches) (r : Rule) (d d' : Doc)
+    (h : ∀ k, (normDoc d).find k = (normDoc d').find k) :
+    (r.optimise E sw).matches E d = (r.optimise E sw).matches E d' := by
+  unfold Rule.matches Rule.solve
+  rw [← signedness_independent E _ d _, ← signedness_independent E _ d' _]
+  rw [representation_independent E _ (normDoc d) (normDoc d') _ h]
+
+/-- Non-vacuity: `{n: 5, xs: [1, {m: 2}]}` held signed and held unsigned have one normal form… -/
+example :
+    normDoc (.obj [(['n'], .int 5), (['x'], .arr [.int 1, .obj [(['m'], .int 2)]])]) =
+    normDoc (.obj [(['n'], .uint 5), (['x'], .arr [.uint 1, .obj [(['m'], .uint 2)]])]) := by
+  simp [normDoc, normKvs, normV, normVs, i64Max]
+/-- …an unsigned value above i64::MAX has no signed twin and stays what it is… -/
+example : normV (.uint 9223372036854775808) = .uint 9223372036854775808 := by simp [normV, i64Max]
+/-- …and a negative number is never confused with anything. -/
+example : normV (.int (-1)) = .int (-1) := by simp [normV]
 
 end Tau.C11
